@@ -79,3 +79,68 @@ Lemma single_active m g : 0 < active_ops m ->
   asm_call (SetClose g) m = fail XAssert /\
   asm_call (SetWrite g) m = fail XAssert.
 Proof. intros H. cbn [asm_call]. rewrite (busy_refuses m H). repeat split. Qed.
+
+(* ---- a READ operation, including one that has to write (yields 1) -------------------------- *)
+Definition running_rd (y : Z) (g : gen) : asm :=
+  {| a_hs := None; a_cl := None; a_rd := Some g; a_wr := None; a_result := Some y |}.
+
+(* read AND write events both resume the active reader *)
+Lemma io_call_running_rd y g c : is01 y = true -> is_io c = true ->
+  asm_call c (running_rd y g) = do_read g (running_rd y g).
+Proof.
+  intros Hy Hc. destruct c as [g0|g0|g0|f|]; try discriminate; cbn [asm_call].
+  - unfold check_assert, running_rd, active_ops. cbn [a_result a_hs a_cl a_rd a_wr is_some]. rewrite Hy. cbn. reflexivity.
+  - unfold check_assert, running_rd, active_ops. cbn [a_result a_hs a_cl a_rd a_wr is_some]. rewrite Hy. cbn. reflexivity.
+Qed.
+
+(* while the reader is suspended on a write, the machine asks for a write event *)
+Lemma reader_wants_write g : wants_write (running_rd 1 g) = Some true /\ wants_read (running_rd 1 g) = Some false.
+Proof. split; reflexivity. Qed.
+
+Lemma read_to_completion v (Hv : is01 v = false) : forall ys evs y,
+  is01 y = true -> all01 ys = true -> length evs = S (length ys) -> forallb is_io evs = true ->
+  snd (asm_trace evs (running_rd y (yields01 ys ++ [GY v]))) = asm_idle /\
+  no_exn (fst (asm_trace evs (running_rd y (yields01 ys ++ [GY v])))) /\
+  events (fst (asm_trace evs (running_rd y (yields01 ys ++ [GY v])))) = [ERead v].
+Proof.
+  induction ys as [|y1 ys IH]; intros evs y Hy Hall Hlen Hio.
+  - destruct evs as [|c [|c2 evs]]; cbn [length] in Hlen; try lia.
+    cbn [forallb] in Hio. apply andb_true_iff in Hio. destruct Hio as [Hc _].
+    cbn [asm_trace yields01 map app]. rewrite (io_call_running_rd y _ c Hy Hc).
+    cbn [do_read]. rewrite Hv. cbn. repeat split. repeat constructor.
+  - destruct evs as [|c evs]; cbn [length] in Hlen; [lia|].
+    cbn [forallb] in Hio. apply andb_true_iff in Hio. destruct Hio as [Hc Hio].
+    cbn [all01 forallb] in Hall. apply andb_true_iff in Hall. destruct Hall as [Hy1 Hall].
+    cbn [asm_trace]. rewrite (io_call_running_rd y _ c Hy Hc).
+    cbn [yields01 map app do_read]. rewrite Hy1.
+    change (set_result (Some y1) (set_rd (Some (map GY ys ++ [GY v])) (running_rd y (GY y1 :: map GY ys ++ [GY v]))))
+      with (running_rd y1 (yields01 ys ++ [GY v])).
+    specialize (IH evs y1 Hy1 Hall ltac:(lia) Hio).
+    destruct (asm_trace evs (running_rd y1 (yields01 ys ++ [GY v]))) as [os m]. cbn [fst snd] in *.
+    destruct IH as [I1 [I2 I3]]. split; [exact I1|]. split.
+    + unfold no_exn, exns in *. cbn [map fst snd]. constructor; [reflexivity|exact I2].
+    + unfold events in *. cbn [map concat fst snd app]. exact I3.
+Qed.
+
+Lemma asm_read_completes ys evs v :
+  all01 ys = true -> is01 v = false -> length evs = length ys -> forallb is_io evs = true ->
+  snd (asm_trace (InRead (yields01 ys ++ [GY v]) :: evs) asm_idle) = asm_idle /\
+  no_exn (fst (asm_trace (InRead (yields01 ys ++ [GY v]) :: evs) asm_idle)) /\
+  events (fst (asm_trace (InRead (yields01 ys ++ [GY v]) :: evs) asm_idle)) = [ERead v].
+Proof.
+  intros Hall Hv Hlen Hio. destruct ys as [|y ys].
+  - destruct evs; [|cbn in Hlen; lia]. cbn [asm_trace asm_call yields01 map app].
+    change (check_assert 1 asm_idle) with true. cbn iota. cbn [dispatch asm_idle a_hs a_cl a_rd a_wr do_read].
+    rewrite Hv. cbn. repeat split. repeat constructor.
+  - cbn [all01 forallb] in Hall. apply andb_true_iff in Hall. destruct Hall as [Hy Hall].
+    cbn [asm_trace asm_call]. change (check_assert 1 asm_idle) with true. cbn iota.
+    cbn [dispatch asm_idle a_hs a_cl a_rd a_wr yields01 map app do_read]. rewrite Hy.
+    change (set_result (Some y) (set_rd (Some (map GY ys ++ [GY v]))
+              (set_rd (Some (GY y :: map GY ys ++ [GY v])) asm_idle)))
+      with (running_rd y (yields01 ys ++ [GY v])).
+    pose proof (read_to_completion v Hv ys evs y Hy Hall ltac:(cbn [length] in Hlen; lia) Hio) as H.
+    destruct (asm_trace evs (running_rd y (yields01 ys ++ [GY v]))) as [os m]. cbn [fst snd] in *.
+    destruct H as [I1 [I2 I3]]. split; [exact I1|]. split.
+    + unfold no_exn, exns in *. cbn [map fst snd]. constructor; [reflexivity|exact I2].
+    + unfold events in *. cbn [map concat fst snd app]. exact I3.
+Qed.
